@@ -1,6 +1,7 @@
 package openapiv3
 
 import (
+	"encoding/json"
 	"fmt"
 	"strings"
 
@@ -11,7 +12,6 @@ import (
 	"github.com/pb33f/libopenapi/orderedmap"
 	yaml "go.yaml.in/yaml/v4"
 	"google.golang.org/protobuf/compiler/protogen"
-	k8syaml "sigs.k8s.io/yaml"
 
 	"github.com/SebastienMelki/sebuf/internal/annotations"
 )
@@ -961,6 +961,33 @@ func addBuiltinErrorSchemas(schemas *orderedmap.Map[string, *base.SchemaProxy]) 
 }
 
 // Render outputs the OpenAPI document in the specified format.
+// jsonableYAML converts a decoded YAML tree into one encoding/json can marshal
+// (mapping keys become strings).
+func jsonableYAML(v any) any {
+	switch x := v.(type) {
+	case map[string]any:
+		out := make(map[string]any, len(x))
+		for k, e := range x {
+			out[k] = jsonableYAML(e)
+		}
+		return out
+	case map[any]any:
+		out := make(map[string]any, len(x))
+		for k, e := range x {
+			out[fmt.Sprint(k)] = jsonableYAML(e)
+		}
+		return out
+	case []any:
+		out := make([]any, len(x))
+		for i, e := range x {
+			out[i] = jsonableYAML(e)
+		}
+		return out
+	default:
+		return v
+	}
+}
+
 func (g *Generator) Render() ([]byte, error) {
 	switch g.format {
 	case FormatJSON:
@@ -969,8 +996,15 @@ func (g *Generator) Render() ([]byte, error) {
 		if err != nil {
 			return nil, fmt.Errorf("failed to marshal to YAML: %w", err)
 		}
-		// Then convert YAML to JSON
-		jsonData, err := k8syaml.YAMLToJSON(yamlData)
+		// Then convert YAML to JSON. The document was written by a YAML 1.2 encoder, so it
+		// must be read back with YAML 1.2 rules: a YAML 1.1 reader would turn plain keys and
+		// values such as n, y, yes, no, on, off into booleans (a field named "n" became
+		// the property "false").
+		var tree any
+		if err = yaml.Unmarshal(yamlData, &tree); err != nil {
+			return nil, fmt.Errorf("failed to convert YAML to JSON: %w", err)
+		}
+		jsonData, err := json.Marshal(jsonableYAML(tree))
 		if err != nil {
 			return nil, fmt.Errorf("failed to convert YAML to JSON: %w", err)
 		}
